@@ -4,7 +4,10 @@ import (
 	"encoding/binary"
 	"fmt"
 	"math/rand"
+	"net"
 	"net/netip"
+	"sync"
+	"time"
 	"unsafe"
 
 	"github.com/DataDog/datadog-traceroute/packets"
@@ -451,6 +454,14 @@ func checkC12() fw.Check {
 			cases = append(cases, fw.Case{ID: "C12/drop-all", Run: func(c *fw.Ctx) {
 				runC12Program(c, "drop-all", "drop-all", packets.PacketFilterSpec{FilterType: packets.FilterTypeICMP}, func([]byte) bool { return false }, enumICMP, true)
 			}})
+			// (c) the real AF_PACKET source: sequences of filter installations with frames in flight
+			nLive := 6
+			if tier == "thorough" {
+				nLive = 120
+			}
+			for i := 0; i < nLive; i++ {
+				cases = append(cases, fw.Case{ID: fmt.Sprintf("C12/live-swap/%d", i), Run: func(c *fw.Ctx) { runC12LiveSwap(c, c.ID, c.Rng) }})
+			}
 			// (a) end to end
 			for _, v := range refmatch.Variants {
 				for _, fm := range catalogue() {
@@ -511,4 +522,149 @@ func runC12E2E(c *fw.Ctx, id string, v refmatch.Variant, fm form) {
 		c.Nontrivial("e2e/" + v.Name + "/" + fm.name)
 	}
 	c.Count("e2e_twin_pairs", 1)
+}
+
+var c12LiveMu sync.Mutex // one live AF_PACKET experiment at a time (they all see each other's frames on lo)
+
+// runC12LiveSwap drives packets.NewAFPacketSource() (the socket the Linux build really reads from) through a
+// sequence of SetPacketFilter calls while tagged frames are injected on `lo` through a second AF_PACKET socket:
+// whatever the source returns after an installation must satisfy the reference predicate of the filter now in
+// force (frames queued under the previous filter included - SetPacketFilter promises that), and every frame
+// injected after the last installation that satisfies it must be returned.
+func runC12LiveSwap(c *fw.Ctx, id string, r *rand.Rand) {
+	c12LiveMu.Lock()
+	defer c12LiveMu.Unlock()
+	lo, err := net.InterfaceByName("lo")
+	if err != nil {
+		c.Inconclusive(id + ": no lo interface: " + err.Error())
+		return
+	}
+	src, err := packets.NewAFPacketSource()
+	if err != nil {
+		c.Inconclusive(id + ": AF_PACKET source: " + err.Error())
+		return
+	}
+	defer src.Close()
+	inj, err := unix.Socket(unix.AF_PACKET, unix.SOCK_RAW, 0)
+	if err != nil {
+		c.Inconclusive(id + ": AF_PACKET injector: " + err.Error())
+		return
+	}
+	defer unix.Close(inj)
+	cfg := tupleCfg{src: [4]byte{198, 51, 100, byte(1 + r.Intn(200))}, dst: [4]byte{203, 0, 113, byte(1 + r.Intn(200))}, sport: uint16(1024 + r.Intn(60000)), dport: uint16(1024 + r.Intn(60000))}
+	type fl struct {
+		name string
+		spec packets.PacketFilterSpec
+		ref  func([]byte) bool
+	}
+	filters := []fl{
+		{"synack", packets.PacketFilterSpec{FilterType: packets.FilterTypeSYNACK}, refSynAck},
+		{"tuple", packets.PacketFilterSpec{FilterType: packets.FilterTypeTCP, FilterConfig: packets.FilterConfig{
+			Src: netip.AddrPortFrom(netip.AddrFrom4(cfg.src), cfg.sport), Dst: netip.AddrPortFrom(netip.AddrFrom4(cfg.dst), cfg.dport)}}, func(f []byte) bool { return refTuple(cfg, f) }},
+		{"icmp", packets.PacketFilterSpec{FilterType: packets.FilterTypeICMP}, refICMP},
+	}
+	tag := uint16(r.Intn(30000))
+	injected := map[uint16][]byte{}
+	send := func(f []byte) {
+		tag++
+		f = append([]byte(nil), f...)
+		et := binary.BigEndian.Uint16(f[12:])
+		if et == 0x0800 {
+			binary.BigEndian.PutUint16(f[18:], tag)
+		} else {
+			binary.BigEndian.PutUint16(f[16:], tag)
+		}
+		injected[tag] = f
+		sa := &unix.SockaddrLinklayer{Ifindex: lo.Index, Protocol: uint16(et<<8 | et>>8)}
+		if err := unix.Sendto(inj, f, 0, sa); err != nil {
+			c.Count("live_inject_errors", 1)
+		}
+	}
+	batch := func() {
+		foreign := [4]byte{192, 0, 2, byte(1 + r.Intn(200))}
+		send(buildV4(0x0800, 6, 5, 0, cfg.src, cfg.dst, cfg.sport, cfg.dport, 0x12, -1))   // the tuple's SYN-ACK
+		send(buildV4(0x0800, 6, 5, 0, foreign, cfg.dst, cfg.sport, cfg.dport, 0x12, -1))   // foreign SYN-ACK
+		send(buildV4(0x0800, 6, 5, 0, cfg.src, cfg.dst, cfg.sport, cfg.dport, 0x10, -1))   // the tuple's ACK
+		send(buildV4(0x0800, 6, 5, 0, cfg.src, cfg.dst, cfg.sport+1, cfg.dport, 0x12, -1)) // other port, SYN-ACK
+		send(buildV4(0x0800, 6, 5, 0, foreign, cfg.dst, 80, 40000, 0x10, -1))              // unrelated TCP
+		send(buildV4(0x0800, 1, 5, 0, foreign, cfg.dst, 0x0b00, 0, 0, -1))                 // ICMPv4
+		send(buildV4(0x0800, 17, 5, 0, foreign, cfg.dst, 53, 40000, 0, -1))                // UDP
+		send(buildV6(58, 0, -1))                                                           // ICMPv6
+		send(buildV6(17, 0, -1))                                                           // UDP over IPv6
+		send(buildV4(0x0800, 6, 7, 0, cfg.src, cfg.dst, cfg.sport, cfg.dport, 0x12, -1))   // the tuple's SYN-ACK behind IP options
+	}
+	steps := 3 + r.Intn(3)
+	var cur fl
+	seq := ""
+	for st := 0; st < steps; st++ {
+		nf := filters[r.Intn(len(filters))]
+		if st > 0 && nf.name == cur.name {
+			nf = filters[(r.Intn(2)+1+indexOfFilter(cur.name))%len(filters)]
+		}
+		if err := src.SetPacketFilter(nf.spec); err != nil {
+			c.Inconclusive(fmt.Sprintf("%s: SetPacketFilter(%s): %v", id, nf.name, err))
+			return
+		}
+		cur = nf
+		seq += nf.name + ">"
+		firstTagOfBatch := tag + 1
+		batch()
+		time.Sleep(3 * time.Millisecond) // let the loopback deliver both copies of every frame
+		if st < steps-1 && r.Intn(3) != 0 {
+			continue // swap again without reading: the frames just injected stay queued under the old filter
+		}
+		// read everything that is available
+		got := map[uint16]int{}
+		buf := make([]byte, 2048)
+		for {
+			src.SetReadDeadline(time.Now().Add(25 * time.Millisecond))
+			n, err := src.Read(buf)
+			if err != nil {
+				break
+			}
+			p := buf[:n]
+			if n < 20 {
+				continue
+			}
+			var eth []byte
+			var tg uint16
+			if p[0]>>4 == 4 {
+				eth = append([]byte{0, 0, 0, 0, 0, 0, 0, 0, 0, 0, 0, 0, 0x08, 0x00}, p...)
+				tg = binary.BigEndian.Uint16(p[4:])
+			} else {
+				eth = append([]byte{0, 0, 0, 0, 0, 0, 0, 0, 0, 0, 0, 0, 0x86, 0xdd}, p...)
+				tg = binary.BigEndian.Uint16(p[2:])
+			}
+			c.Count("live_frames_read", 1)
+			if !cur.ref(eth) {
+				which := "foreign traffic"
+				if _, ok := injected[tg]; ok {
+					which = fmt.Sprintf("injected frame %d (current batch starts at %d)", tg, firstTagOfBatch)
+				}
+				c.Violate("C12", "live-accepts-unwanted/"+cur.name, fmt.Sprintf("%s: after installing %s (sequence %s) the AF_PACKET source returned a frame its filter must reject: %s, % x", id, cur.name, seq, which, p[:min(n, 40)]), nil)
+				return
+			}
+			if _, ok := injected[tg]; ok {
+				got[tg]++
+			}
+		}
+		for tg := firstTagOfBatch; tg <= tag; tg++ {
+			if cur.ref(injected[tg]) && got[tg] == 0 {
+				c.Violate("C12", "live-rejects-wanted/"+cur.name, fmt.Sprintf("%s: frame %d injected after installing %s (sequence %s) satisfies the filter but was never returned", id, tg, cur.name, seq), nil)
+				return
+			}
+		}
+	}
+	c.Count("live_sequences", 1)
+	c.Nontrivial("live-swap/" + seq)
+}
+
+func indexOfFilter(name string) int {
+	switch name {
+	case "synack":
+		return 0
+	case "tuple":
+		return 1
+	}
+	return 2
 }
